@@ -673,14 +673,12 @@ func formatTimezone(t time.Time, marker *variableMarker, prefixed bool) (string,
 
 func formatTimezoneShort(h int, m int, layout string) (string, error) {
 
-	tz, err := formatInteger(h, layout)
+	tz, err := formatInteger(abs(h), layout)
 	if err != nil {
 		return "", err
 	}
 
-	if h >= 0 {
-		tz = "+" + tz
-	}
+	tz = timezoneSign(h, m) + tz
 
 	if m != 0 {
 		tz += fmt.Sprintf(":%02d", abs(m))
@@ -691,21 +689,17 @@ func formatTimezoneShort(h int, m int, layout string) (string, error) {
 
 func formatTimezoneLong(h int, m int, layout string) (string, error) {
 
-	tz, err := formatInteger(h*100+m, layout)
+	tz, err := formatInteger(abs(h)*100+abs(m), layout)
 	if err != nil {
 		return "", err
 	}
 
-	if h >= 0 {
-		tz = "+" + tz
-	}
-
-	return tz, nil
+	return timezoneSign(h, m) + tz, nil
 }
 
 func formatTimezoneSplit(h int, layoutH string, m int, layoutM string, separator string) (string, error) {
 
-	hh, err := formatInteger(h, layoutH)
+	hh, err := formatInteger(abs(h), layoutH)
 	if err != nil {
 		return "", err
 	}
@@ -715,13 +709,18 @@ func formatTimezoneSplit(h int, layoutH string, m int, layoutM string, separator
 		return "", err
 	}
 
-	tz := hh + separator + mm
+	return timezoneSign(h, m) + hh + separator + mm, nil
+}
 
-	if h >= 0 {
-		tz = "+" + tz
+// timezoneSign returns the sign of a timezone offset that is
+// given as hours and minutes. Both parts carry the sign of the
+// offset, so for an offset of less than an hour the hours are
+// zero and only the minutes tell the direction.
+func timezoneSign(h int, m int) string {
+	if h < 0 || m < 0 {
+		return "-"
 	}
-
-	return tz, nil
+	return "+"
 }
 
 var calendars = []string{"AD"}
